@@ -137,6 +137,11 @@ impl TimeOfDayLiteral {
     pub fn hmsm(&self) -> (u8, u8, u8, u32) {
         self.value.as_hms_micro()
     }
+
+    /// Returns the hour, minute, second and nanosecond from the literal.
+    pub fn hmsn(&self) -> (u8, u8, u8, u32) {
+        self.value.as_hms_nano()
+    }
 }
 
 // See section 2.2.3
@@ -181,5 +186,10 @@ impl DateAndTimeLiteral {
     /// Returns the hour, minute, second and millisecond from the literal.
     pub fn hmsm(&self) -> (u8, u8, u8, u32) {
         self.value.as_hms_micro()
+    }
+
+    /// Returns the hour, minute, second and nanosecond from the literal.
+    pub fn hmsn(&self) -> (u8, u8, u8, u32) {
+        self.value.as_hms_nano()
     }
 }
